@@ -36,6 +36,8 @@ DIMS = {
     # ... or on a grid with as many points and the same first and last point as the model grid, spaced differently
     # ... or on a coarser grid that starts above / ends below the model grid (requests reach beyond the table)
     'grids': ['same', 'different', 'same-ends', 'higher-start', 'lower-end'],
+    # abundance of the first active gas: absent everywhere, absent below and present aloft, present with a gap
+    'h2o': [['const', 1e-4], ['const', 0.0], ['array', [0.0, 0.0, 2e-4, 2e-4]], ['array', [2e-4, 0.0, 0.0, 2e-4]]],
 }
 MAGS = {'thin': (1e-33, None), 'tau1': (1e-27, None), 'mixed': (1.0, [1e-33, 1e-27, 1e-24, 1e-18]),
         'sat': (1e-18, None)}
@@ -84,7 +86,7 @@ def gmult(case):
 
 def spec_of(case):
     return {'kind': case['kind'], 'N': case['N'], 'T': case['T'], 'ngauss': case['ngauss'],
-            'path': case['path'], 'gases': [['H2O', ['const', 1e-4]], ['CH4', ['array', [1e-5, 1e-3]]]],
+            'path': case['path'], 'gases': [['H2O', case.get('h2o', ['const', 1e-4])], ['CH4', ['array', [1e-5, 1e-3]]]],
             'contribs': [['flat', {'flat_mix_ratio': FLAT}] if c == 'flat' else c for c in case['contribs']]}
 
 
